@@ -90,12 +90,18 @@ func (eis *EVMIndexerService) OnStart() error {
 				}
 			case <-eis.Quit():
 				verifhook.At("indexer.header", "quit")
-				quitSignalReBroadcast <- struct{}{}
+				select { // the other loop may have re-broadcast already: never block on the full channel
+				case quitSignalReBroadcast <- struct{}{}:
+				default:
+				}
 				verifhook.At("indexer.header", "done")
 				break processBlockHeader
 			case <-quitSignalReBroadcast:
 				verifhook.At("indexer.header", "requit")
-				quitSignalReBroadcast <- struct{}{}
+				select {
+				case quitSignalReBroadcast <- struct{}{}:
+				default:
+				}
 				verifhook.At("indexer.header", "done")
 				break processBlockHeader
 			default:
@@ -139,12 +145,18 @@ func (eis *EVMIndexerService) OnStart() error {
 		select {
 		case <-eis.Quit():
 			verifhook.At("indexer.main", "quit")
-			quitSignalReBroadcast <- struct{}{}
+			select { // the other loop may have re-broadcast already: never block on the full channel
+			case quitSignalReBroadcast <- struct{}{}:
+			default:
+			}
 			verifhook.At("indexer.main", "done")
 			return nil
 		case <-quitSignalReBroadcast:
 			verifhook.At("indexer.main", "requit")
-			quitSignalReBroadcast <- struct{}{}
+			select {
+			case quitSignalReBroadcast <- struct{}{}:
+			default:
+			}
 			verifhook.At("indexer.main", "done")
 			return nil
 		default:
